@@ -311,10 +311,16 @@ func (h *Hist) scan(faults map[int]bool, failDesc map[string]bool) (string, erro
 	for _, p := range h.listedP {
 		h.podL.pods = append(h.podL.pods, p.materialise())
 	}
+	// visiting order among nodes of equal age: first what the repository's own sorters produce on these lists (hooks);
+	// after the scan the prefix the code was actually seen to visit (its GET calls) is put in front, so that a different
+	// but equally valid tie-break of the code does not count as a disagreement. The model validates every hint
+	// (permutation, sorted by age) and falls back to its reference order otherwise.
 	hints := [][2]interface{}{}
+	hintLists := [][2][]*v1.Node{}
 	for _, c := range h.cfgs {
 		u, t := h.classify(c, h.nodeL.nodes)
 		hints = append(hints, [2]interface{}{c.Name, PHints{Old: nnInts(controller.VerifSortOldest(u)), New: nnInts(controller.VerifSortNewest(t))}})
+		hintLists = append(hintLists, [2][]*v1.Node{u, t})
 	}
 	pnodes := []PNode{}
 	for _, n := range h.nodeL.nodes {
@@ -454,6 +460,40 @@ func (h *Hist) scan(faults map[int]bool, failDesc map[string]bool) (string, erro
 		}
 		st, _ := h.ctl.VerifGroupState(name)
 		obs.Recs = append(obs.Recs, PObsRec{Name: name, J: nnEntries(h.rec.Entries[m:e]), Delta: int64(st.ScaleDelta)})
+	}
+	for i := range obs.Recs {
+		if i >= len(hints) {
+			break
+		}
+		seen := []string{}
+		for _, e := range obs.Recs[i].J {
+			if m, ok := e.Call.(map[string]interface{}); ok {
+				if g, ok := m["getNode"].(map[string]interface{}); ok {
+					seen = append(seen, fmt.Sprint(g["name"]))
+				}
+			}
+		}
+		ph := hints[i][1].(PHints)
+		reorder := func(base []int, nodes []*v1.Node) []int {
+			out, used := []int{}, map[int]bool{}
+			for _, nm := range seen {
+				for idx, n := range nodes {
+					if n.Name == nm && !used[idx] {
+						out = append(out, idx)
+						used[idx] = true
+					}
+				}
+			}
+			for _, idx := range base {
+				if !used[idx] {
+					out = append(out, idx)
+				}
+			}
+			return out
+		}
+		ph.Old = nnInts(reorder(ph.Old, hintLists[i][0]))
+		ph.New = nnInts(reorder(ph.New, hintLists[i][1]))
+		hints[i][1] = ph
 	}
 	for _, c := range h.cfgs {
 		st, _ := h.ctl.VerifGroupState(c.Name)
